@@ -40,7 +40,11 @@ def run_one(spec, repo, props=None):
     d = scratch_copy(repo)
     ev = tempfile.mkdtemp(prefix="krp-ev.")
     try:
-        for e in spec["edits"]:
+        if spec.get("patch"):
+            pr = subprocess.run(["patch", "-p1", "-s", "-i", os.path.join(HERE, spec["patch"])], cwd=d, capture_output=True, text=True)
+            if pr.returncode != 0:
+                return (spec["id"], "inapplicable", "patch does not apply: %s" % (pr.stdout + pr.stderr)[-200:])
+        for e in spec.get("edits", []):
             p = os.path.join(d, e["file"])
             s = open(p).read()
             if s.count(e["find"]) < 1:
@@ -75,9 +79,9 @@ def judge(spec, kind, res):
                 return "killed", ""
         return "missed", "\n".join(o[-1500:] for _, _, o in results)
     else:
-        for prop, rc, out in results:
-            if rc != 0:
-                return "alarm", "%s rc=%d\n%s" % (prop, rc, out[-1500:])
+        al = ["%s rc=%d\n%s" % (prop, rc, "\n".join(l for l in out.splitlines() if not l.startswith("KNOWN-FINDING"))[-1500:]) for prop, rc, out in results if rc != 0]
+        if al:
+            return "alarm", "\n".join(al)
         return "silent", ""
 
 
@@ -131,7 +135,7 @@ def main():
         specs = []
         for f in sorted(glob.glob(os.path.join(HERE, k, "*.json"))):
             for s in json.load(open(f)):
-                if only and s["id"] != only:
+                if only and not (s["id"] == only or (only.endswith("*") and s["id"].startswith(only[:-1]))):
                     continue
                 if prop and k == "mutants" and s["property"] != prop:
                     continue
